@@ -97,6 +97,23 @@ fn range_hash_from_chunks(chunks: &[MerkleHash]) -> (r: MerkleHash) ensures r ==
 fn vx_firsts(s: &[(MerkleHash, usize)]) -> (r: Vec<MerkleHash>) ensures r@ == ch_hashes(s@)
 { s.iter().map(|(hash, _)| *hash).collect() }
 
+
+// C14/C03: the bytes recorded in a file's segments add up to the bytes of the chunks it denotes (MDBFileInfo::file_size)
+spec fn seg_bytes_sum(fi: Seq<FileDataSequenceEntry>) -> nat decreases fi.len() {
+    if fi.len() == 0 { 0 } else { seg_bytes_sum(fi.drop_last()) + fi.last().unpacked_segment_bytes as nat }
+}
+proof fn lemma_seg_bytes_sum(fi: Seq<FileDataSequenceEntry>, nd: Seq<MerkleHash>)
+    requires forall|i: int| 0 <= i < fi.len() ==> seg_ok(#[trigger] fi[i], nd),
+    ensures seg_bytes_sum(fi) == sum_len(flatten(fi, nd)),
+    decreases fi.len()
+{
+    if fi.len() > 0 {
+        assert forall|i: int| 0 <= i < fi.drop_last().len() implies seg_ok(#[trigger] fi.drop_last()[i], nd) by { assert(fi.drop_last()[i] == fi[i]); }
+        lemma_seg_bytes_sum(fi.drop_last(), nd);
+        lemma_sum_len_append(flatten(fi.drop_last(), nd), seg_den(fi.last(), nd));
+        assert(seg_ok(fi.last(), nd));
+    }
+}
 spec fn seg_n(e: FileDataSequenceEntry) -> int { e.chunk_index_end - e.chunk_index_start }
 // chunk offset of segment i in the file's chunk list: the running `chunk_idx` of finalize's closure
 spec fn off(fi: Seq<FileDataSequenceEntry>, k: int) -> int decreases k {
@@ -535,6 +552,7 @@ impl<DataInterfaceType: DeduplicationDataInterface> FileDeduper<DataInterfaceTyp
             /*@C02*/ forall|i: int| 0 <= i < self.file_info@.len() ==> (#[trigger] r.1.pending_file_info@[0].0.verification@[i]).range_hash
                         == range_hash_spec(seg_den(self.file_info@[i], hashes(self.new_data@))),
             /*@C14*/ r.2 == self.deduplication_metrics,
+            /*@C14,C03*/ seg_bytes_sum(self.file_info@) == self.deduplication_metrics.total_bytes,
             r.3 == self.new_xorbs,
 //@ body-start
         let ghost fi0 = self.file_info@; let ghost nd = hashes(self.new_data@); let ghost ch = ch_hashes(self.chunk_hashes@);
@@ -551,6 +569,7 @@ impl<DataInterfaceType: DeduplicationDataInterface> FileDeduper<DataInterfaceTyp
                 lemma_flatten_segment(fi0, nd, i);
             }
             lemma_sum_len_subrange(nd, 0, nd.len() as int);
+            lemma_seg_bytes_sum(fi0, nd);
         }
 //@ end
 }
